@@ -395,6 +395,9 @@ def run(ctx):
         part = None
     if part is not None:
         part.run_part(ctx)
+    # the extension-function half (EXSLT, xalan:, id(), ...): built as its own family (props/C02_ext.py)
+    if os.path.exists(os.path.join(core.VERIF, "props", "C02_ext.py")) and os.path.exists(os.path.join(core.VERIF, "props", "C02_ext.enabled")):
+        importlib.import_module("props.C02_ext").run_part(ctx)
 
     known = {k["key"]: k for k in ctx.known.for_property("C02")}
     hits = {}
